@@ -1084,7 +1084,14 @@ fn tcp_framed(id: &str, tail: &[u8]) -> String {
 
 /// one datagram that the receive loop must skip
 fn decoy(r: &mut Rng, q: &Qd, buf: usize) -> String {
-    let right = msg_tail(0x8180, 1, 0, &q.question(false), &[]);
+    decoy_tc(r, q, buf, 1)
+}
+
+/// `tc4`/4 of the decoys carry the TC flag (a datagram that is skipped must not influence the
+/// fallback decision either)
+fn decoy_tc(r: &mut Rng, q: &Qd, buf: usize, tc4: u64) -> String {
+    let fl: u16 = if r.chance(tc4, 4) { 0x8380 } else { 0x8180 };
+    let right = msg_tail(fl, 1, 0, &q.question(false), &[]);
     match r.below(13) {
         0 => {
             // too short
@@ -1115,31 +1122,31 @@ fn decoy(r: &mut Rng, q: &Qd, buf: usize) -> String {
                 qname: other,
                 ..q.clone()
             };
-            format!("IIII{}", hx(&msg_tail(0x8180, 1, 0, &o.question(false), &[])))
+            format!("IIII{}", hx(&msg_tail(fl, 1, 0, &o.question(false), &[])))
         }
         4 => {
             let o = Qd {
                 qtype: if r.chance(1, 2) { q.qtype ^ 1 } else { q.qtype.wrapping_add(256) },
                 ..q.clone()
             };
-            format!("IIII{}", hx(&msg_tail(0x8180, 1, 0, &o.question(false), &[])))
+            format!("IIII{}", hx(&msg_tail(fl, 1, 0, &o.question(false), &[])))
         }
         5 => {
             let o = Qd {
                 qclass: if r.chance(1, 2) { q.qclass ^ 1 } else { q.qclass.wrapping_add(256) },
                 ..q.clone()
             };
-            format!("IIII{}", hx(&msg_tail(0x8180, 1, 0, &o.question(false), &[])))
+            format!("IIII{}", hx(&msg_tail(fl, 1, 0, &o.question(false), &[])))
         }
         6 => {
             // QDCOUNT = 0, with or without question bytes behind the header
             let qb = if r.chance(1, 2) { q.question(false) } else { Vec::new() };
-            format!("IIII{}", hx(&msg_tail(0x8180, 0, 0, &qb, &[])))
+            format!("IIII{}", hx(&msg_tail(fl, 0, 0, &qb, &[])))
         }
         7 => {
             let mut qq = q.question(false);
             qq.extend_from_slice(&q.question(false));
-            format!("IIII{}", hx(&msg_tail(0x8180, 2, 0, &qq, &[])))
+            format!("IIII{}", hx(&msg_tail(fl, 2, 0, &qq, &[])))
         }
         8 => {
             // cut inside the question (name or fixed fields)
@@ -1165,7 +1172,7 @@ fn decoy(r: &mut Rng, q: &Qd, buf: usize) -> String {
             let mut qb = vec![0xc0, *r.pick(&[0x0c, 0x0d, 0x10, 0xff])];
             qb.extend_from_slice(&q.qtype.to_be_bytes());
             qb.extend_from_slice(&q.qclass.to_be_bytes());
-            format!("IIII{}", hx(&msg_tail(0x8180, 1, 0, &qb, &[])))
+            format!("IIII{}", hx(&msg_tail(fl, 1, 0, &qb, &[])))
         }
         _ => {
             // right ID, one label fewer / one more
@@ -1181,7 +1188,7 @@ fn decoy(r: &mut Rng, q: &Qd, buf: usize) -> String {
                 qname: other,
                 ..q.clone()
             };
-            format!("IIII{}", hx(&msg_tail(0x8180, 1, 0, &o.question(false), &[])))
+            format!("IIII{}", hx(&msg_tail(fl, 1, 0, &o.question(false), &[])))
         }
     }
 }
@@ -1286,7 +1293,7 @@ fn gen_c11(r: &mut Rng, index: u64) -> String {
     } else {
         format!("{}:{}", r.pick(&[0u8, 1, 255]), r.pick(&[512u16, 1232, 4096, 65535]))
     };
-    let buf = *r.pick(&[512usize, 513, 1231, 1232, 4096, 65535]);
+    let buf = *r.pick(&[512usize, 513, 1231, 1232, 4096, 65535, 65536, 66000, 70000, 131672]);
     let strat = *r.pick(&["udp", "notcp", "tcp"]);
     let cfgbuf = match r.below(10) {
         0 => 0,
@@ -1403,7 +1410,7 @@ fn gen_c13(r: &mut Rng, index: u64) -> String {
     let h = plain_hdr(r, index, strat);
     let buf = *r.pick(&[512usize, 1232]);
     let n = r.below(4);
-    let mut e0: Vec<String> = (0..n).map(|_| decoy(r, &q, buf)).collect();
+    let mut e0: Vec<String> = (0..n).map(|_| decoy_tc(r, &q, buf, 2)).collect();
     let flags = if r.chance(2, 3) { 0x8380 } else { 0x8180 };
     e0.push(format!("IIII{}", hx(&msg_tail(flags, 1, 0, &q.question(false), &[]))));
     let ans = a_records(r, 1);
@@ -1555,13 +1562,46 @@ fn gen_c15(r: &mut Rng, index: u64) -> String {
     let qt = *r.pick(&[Some(40u64), Some(60), None]);
     let lt = *r.pick(&[160u64, 240]);
     let tcp_case = r.chance(1, 5);
+    let fallback_case = !tcp_case && r.chance(1, 6);
     let mut h = plain_hdr(r, index, if tcp_case { "tcp" } else { "udp" });
     h.qt = qt;
     h.lt = lt;
     let buf = 512;
     let mut udp: Vec<Vec<String>> = Vec::new();
     let mut tcp: Vec<Vec<String>> = Vec::new();
-    if tcp_case {
+    if fallback_case {
+        // late fallback: k UDP attempts are lost, the next one is answered with TC set, and the
+        // TCP connection then stalls or drips: the lifetime runs from the start of the *call*,
+        // not from the start of the attempt that was answered.
+        h.qt = Some(100);
+        h.lt = 400;
+        let k = r.range(1, 3);
+        for _ in 0..k {
+            udp.push(if r.chance(1, 3) { vec![decoy(r, &q, buf)] } else { vec![] });
+        }
+        udp.push(vec![format!("IIII{}", hx(&msg_tail(0x8380, 1, 0, &q.question(false), &[])))]);
+        let tail = msg_tail(0x8180, 1, 0, &q.question(false), &[]);
+        let framed = tcp_framed("abcd", &tail);
+        tcp.push(match r.below(4) {
+            0 => vec!["h".to_string()],
+            1 => vec![framed[..4].to_string(), "h".to_string()],
+            2 => {
+                let keep = 8 + 2 * r.below((framed.len() as u64 - 8) / 2) as usize;
+                vec![framed[..keep].to_string(), "h".to_string()]
+            }
+            _ => {
+                let mut items = vec![framed[..4].to_string()];
+                let body = &framed[4..];
+                let mut i = 0;
+                while i < body.len() {
+                    items.push("p60".to_string());
+                    items.push(body[i..i + 2].to_string());
+                    i += 2;
+                }
+                items
+            }
+        });
+    } else if tcp_case {
         let tail = msg_tail(0x8180, 1, 0, &q.question(false), &[]);
         let framed = tcp_framed("IIII", &tail);
         tcp.push(match r.below(6) {
